@@ -424,6 +424,13 @@ def _run(prop, tier, a, mod, out, workdir, t_start):
         log("coqchk: %s" % ("ok" if c_ok else "FAILED"))
         if not c_ok:
             log(c_tail)
+    # the model's ASCII table must be CPython's (Base/Chars.v: asc)
+    if b_ok:
+        outs = run_model(["(1 %d)" % n for n in range(128)])
+        bad = [n for n, o in enumerate(outs) if o != "(0 %d)" % enc.enc_char(chr(n))]
+        if bad:
+            out.violations.append({"kind": "extraction-mismatch", "case": None,
+                                   "detail": "Chars.asc disagrees with CPython's character flags on ASCII codes %r" % bad[:10]})
     # 2. cases
     if a.replay:
         payload = json.load(open(a.replay))
